@@ -1097,7 +1097,10 @@ pub(crate) fn get_data_type_attrs(input: &[Attribute]) -> Result<(DataTypeAttrs,
             #[cfg(feature = "syn2")]
             let tokens = match &x.meta {
                 syn2::Meta::Path(_) => TokenStream::new(),
-                syn2::Meta::List(l) => l.tokens.clone(),
+                syn2::Meta::List(l) => match l.delimiter {
+                    syn2::MacroDelimiter::Paren(_) => l.tokens.clone(),
+                    _ => Err(syn::Error::new(x.span(), "unexpected token"))?,
+                },
                 syn2::Meta::NameValue(_) => Err(syn::Error::new(x.span(), "#[name = \"Value\"] syntax is not supported."))?,
             };
 
@@ -1176,7 +1179,10 @@ pub(crate) fn get_member_attrs(input: SynDataTypeMember, bark: bool) -> Result<M
             #[cfg(feature = "syn2")]
             let tokens = match &x.meta {
                 syn2::Meta::Path(_) => TokenStream::new(),
-                syn2::Meta::List(l) => l.tokens.clone(),
+                syn2::Meta::List(l) => match l.delimiter {
+                    syn2::MacroDelimiter::Paren(_) => l.tokens.clone(),
+                    _ => Err(syn::Error::new(x.span(), "unexpected token"))?,
+                },
                 syn2::Meta::NameValue(_) => Err(syn::Error::new(x.span(), "#[name = \"Value\"] syntax is not supported."))?,
             };
 
